@@ -477,6 +477,94 @@ class Resolve(FnSpec):
         ]
 
 
+# ------------------------------------------------------------------------------------------------
+# PluginGroup.get: every request is resolved afresh; version-less handles are marked
+
+ReqKey = z3.DeclareSort("PluginRequestKey")
+RQ_NAME = z3.Function("request_name", ReqKey, z3.StringSort())
+NOT_FOUND = z3.Function("no_compatible_version_registered", z3.StringSort(), z3.BoolSort(), z3.IntSort(), z3.IntSort(), z3.IntSort(), z3.BoolSort())
+
+
+class ReqKeyVal(SVal):
+    def __init__(self, t, is_str):
+        self.t, self.is_str = t, is_str
+
+    def py_isinstance(self, cx, c):
+        return self.is_str if c == "str" else c == "object"
+
+
+class PluginCls(SVal):
+    def __init__(self, call_id):
+        self.call_id = call_id
+
+    def py_truth(self, cx):
+        return True
+
+
+class MarkedCls(SVal):
+    def __init__(self, inner):
+        self.inner = inner
+
+    def py_truth(self, cx):
+        return True
+
+
+class UndefVersionNS(SVal):
+    def py_getattr(self, cx, name):
+        if name == "_mark_class":
+            return lambda cx2, c: MarkedCls(c)
+        raise Exception("UndefVersion." + name)
+
+
+class GroupGet(FnSpec):
+    file = "plugin/interface.py"
+    qual = "PluginGroup.get"
+    props = ("C16",)
+
+    def init(self):
+        self.bindings["UndefVersion"] = UndefVersionNS()
+        self.bindings["cast"] = lambda cx, t, v: v
+        self.bindings["plugin_args"] = self.plugin_args
+
+    def plugin_args(self, cx, key, version=None, **kw):
+        a = cx.run_args
+        # name from the key; the version is the explicit one, else the one carried by the key (if any)
+        return (SStr(RQ_NAME(key.t)), a.eff_version)
+
+    def setup(self, cx):
+        from pyvc.values import SMaybe
+
+        g = group_obj(cx)
+        g.cls = "PluginGroupForGet"
+        key = ReqKeyVal(z3.Const("request_key", ReqKey), z3.Bool("key_is_str"))
+        has_v = z3.Bool("effective_version_given")
+        a = A(self=g, key=key, version=None)
+        a.eff_version = SMaybe(z3.Not(has_v), STuple(tuple(SInt.fresh(f"ev{i}") for i in range(3))))
+        cx.run_args = a
+        return a
+
+    def nf(self, cx, a):
+        v = a.eff_version
+        return NOT_FOUND(RQ_NAME(a.key.t), z3.Not(v.isnone), *[x.t for x in v.val.items])
+
+    def ensures(self, cx, a, res):
+        calls = [e for e in cx.fx if e[0] == "get_unsafe"]
+        out = [("resolved-afresh-exactly-once", z3.BoolVal(len(calls) == 1), "every request is resolved against the currently registered versions (no stale answer)")]
+        if res is None:
+            return out + [("none-only-if-nothing-compatible", self.nf(cx, a), "None only when no registered version supports the request")]
+        out.append(("found-when-compatible", z3.Not(self.nf(cx, a)), "a compatible registered version is handed out"))
+        none = a.eff_version.isnone
+        if isinstance(res, MarkedCls):
+            out.append(("marked-iff-versionless", none, "a class obtained without stating a version is handed out marked (and therefore cannot be subclassed)"))
+            out.append(("marks-the-class-resolved-now", z3.BoolVal(len(calls) == 1 and isinstance(res.inner, PluginCls) and res.inner.call_id == calls[0][-2]), "the marked class is the one resolved by this request"))
+        elif isinstance(res, PluginCls):
+            out.append(("marked-iff-versionless", z3.Not(none), "a class obtained with a version is the real class"))
+            out.append(("is-the-class-resolved-now", z3.BoolVal(len(calls) == 1 and res.call_id == calls[0][-2]), "the class is the one resolved by this request"))
+        else:
+            out.append(("result-shape", z3.BoolVal(False), "returns a plugin class or None"))
+        return out
+
+
 def build(reg):
     reg.set_class_home("PluginRef", "schema/plugins.py")
     reg.set_class_home("PluginGroup", "plugin/interface.py")
@@ -484,7 +572,18 @@ def build(reg):
     reg.attr_bindings[("PluginGroup", "name")] = lambda cx, o: o.fields["gname"]
     reg.attr_bindings[("PluginGroup", "PluginRef")] = lambda cx, o: make_ref_ctor(lambda cx2: o.fields["gname"].t)
     reg.elem_order["PluginRef"] = key_lt
-    specs = [EqSpec(), GeSpec(), SupportsSpec(), HashSpec(), GtFromGe(), LeFromGe(), LtFromGe(), AddEp(), Versions(), Resolve()]
+    reg.set_class_home("PluginGroupForGet", "plugin/interface.py", "PluginGroup")
+
+    def get_unsafe(cx, g, name, version=None):
+        a = cx.run_args
+        cid = len(cx.fx)
+        cx.effect("get_unsafe", name, version, cid)
+        if cx.decide(NOT_FOUND(name.t, z3.Not(a.eff_version.isnone), *[x.t for x in a.eff_version.val.items])):
+            cx.py_raise("KeyError", "no compatible version")
+        return PluginCls(cid)
+
+    reg.method_bindings[("PluginGroupForGet", "_get_unsafe")] = get_unsafe
+    specs = [EqSpec(), GeSpec(), SupportsSpec(), HashSpec(), GtFromGe(), LeFromGe(), LtFromGe(), AddEp(), Versions(), Resolve(), GroupGet()]
     for s in specs + [FromEpName(), HasNamespace()]:
         reg.add(s)
     return {
